@@ -2061,6 +2061,12 @@ static int64_t eval2(Node *node, char ***label) {
   }
   case ND_ADDR:
     return eval_rval(node->lhs, label);
+  case ND_DEREF:
+    // An lvalue of array type stands for the address of its first
+    // element: `a[1]` of a two-dimensional array is `a + 1`.
+    if (node->ty->kind != TY_ARRAY)
+      error_tok(node->tok, "not a compile-time constant");
+    return eval2(node->lhs, label);
   case ND_LABEL_VAL:
     if (!label)
       error_tok(node->tok, "not a compile-time constant");
